@@ -8,7 +8,7 @@ from vlib import qN, qbytes, qlist, qopt, qres, run_impl
 from props import toycipher
 from props.C15 import oracle as crc_oracle
 
-GEN_DEPS = ("Crc.v", "gen_crc", "Consts.v", "gen_consts")
+GEN_DEPS = ("Crc.v", "gen_crc", "Consts.v", "gen_consts", "AesFrame.v", "gen_aesframe")
 IMPORTS = "From Bec2 Require Import Gen.Consts Model.Cbc Model.AesContainer."
 
 
